@@ -15,6 +15,8 @@ import (
 
 	"golang.org/x/sys/unix"
 
+	"github.com/panjf2000/gnet/v2/pkg/buffer/linkedlist"
+	"github.com/panjf2000/gnet/v2/pkg/pool/byteslice"
 	"github.com/panjf2000/gnet/v2/pkg/socket"
 
 	"verifharness/tr"
@@ -401,6 +403,54 @@ func oracleRTS(kind string, sa unix.Sockaddr, na net.Addr, p1 bool, sa2 unix.Soc
 	}
 }
 
+// values the driver keeps alive across later operations (C17: "stay correct for the whole life")
+type keptVal struct {
+	snap     []string        // rendering at the time the value was handed out (fresh strings)
+	read     func() []string // renders the live value again
+	panicked bool
+}
+
+func (k keptVal) readName() string {
+	if k.snap != nil {
+		return k.snap[0]
+	}
+	return "na"
+}
+
+var kept []keptVal
+
+// churn: other users of the byte-slice pool (every size class up to 64 bytes and a bit
+// beyond), linked-list buffer nodes and further numeric-zone conversions, all of which
+// write into whatever memory the pool hands them.
+func churn(n int) {
+	for round := 0; round < n; round++ {
+		var held [][]byte
+		for size := 1; size <= 64; size++ {
+			b := byteslice.Get(size)
+			for i := range b {
+				b[i] = 'x'
+			}
+			held = append(held, b)
+			if size%3 == 0 {
+				byteslice.Put(held[0])
+				held = held[1:]
+			}
+		}
+		for _, b := range held {
+			byteslice.Put(b)
+		}
+		var ll linkedlist.Buffer
+		for _, size := range []int{5, 17, 24, 32, 33, 64} {
+			ll.PushBack(bytes.Repeat([]byte{'y'}, size))
+		}
+		_, _ = ll.Discard(40)
+		ll.Release()
+		for _, idx := range []uint32{77777, 4242, 16777000} {
+			_ = socket.VerifIP6ZoneToString(idx + uint32(round))
+		}
+	}
+}
+
 func protoName(base string, code int) string {
 	switch code {
 	case 4:
@@ -556,6 +606,50 @@ func exec(name string, a []string) {
 	case "int":
 		w.Op(l)
 		runScenario(a[0], 120, tr.NewRand(17))
+	case "netns":
+		w.Op(l) // marker only: the case was produced inside a private network namespace
+	case "keep":
+		sa := parseSA(a[1:])
+		w.Op(l)
+		na, p := back(a[0], sa)
+		obsNA(na, p)
+		k := keptVal{panicked: p, read: func() []string { return append([]string{"na"}, naArgs(na)...) }}
+		k.snap = k.read()
+		kept = append(kept, k)
+	case "keepz":
+		v, _ := strconv.ParseUint(a[0], 10, 64)
+		w.Op(l)
+		var z string
+		p, _ := tr.Guard(func() { z = socket.VerifIP6ZoneToString(uint32(v)) })
+		k := keptVal{panicked: p, read: func() []string { return []string{"zs", tr.X([]byte(z))} }}
+		if p {
+			w.Obs(tr.L("zs", "panic"))
+		} else {
+			k.snap = k.read()
+			w.Obs(tr.L(k.snap[0], k.snap[1:]...))
+		}
+		kept = append(kept, k)
+	case "churn":
+		w.Op(l)
+		churn(l.Int(0))
+	case "recheck":
+		w.Op(l)
+		i := l.Int(0)
+		if i < 0 || i >= len(kept) {
+			w.Obs(tr.L("unknown"))
+			return
+		}
+		k := kept[i]
+		if k.panicked {
+			w.Obs(tr.L(k.readName(), "panic"))
+			return
+		}
+		cur := k.read()
+		w.Obs(tr.L(cur[0], cur[1:]...))
+		if strings.Join(cur, " ") != strings.Join(k.snap, " ") {
+			w.Fail("addr-stability", "value-changed-while-alive kind="+cur[0],
+				fmt.Sprintf("kept #%d was %q, now reads %q", i, strings.Join(k.snap, " "), strings.Join(cur, " ")))
+		}
 	default:
 		panic("unknown op " + name)
 	}
@@ -647,6 +741,7 @@ func execLSA(name string, l tr.Line) {
 var cid int
 
 func newCase(prefix, tag string) {
+	kept = nil
 	cid++
 	w.Case(fmt.Sprintf("%s%d", prefix, cid), "sockaddr")
 	w.Tag(tag)
@@ -1050,6 +1145,7 @@ func randPath(r *tr.Rand) []byte {
 
 func replay(path string) {
 	for _, c := range tr.ReadCases(path) {
+		kept = nil
 		w.Case(c.ID, "sockaddr")
 		w.Tag("replay")
 		for _, i := range ifaces {
